@@ -1,7 +1,7 @@
 (* Tie (c): the range tests of IntegerN.pack / UnsignedN.pack as translated from the CURRENT source text
    (Gen/Src.v) are the model's in_range (Model/Codec.v, C04). *)
 From Coq Require Import ZArith List Bool Lia.
-From CV Require Import Base.Val Base.Tys Base.PyLib Gen.Src Model.Codec.
+From CV Require Import Base.Val Base.Tys Base.PyLib Gen.SrcC04 Model.Codec.
 Open Scope Z_scope.
 
 Theorem src_integerN_accepts_eq v w : 1 <= w -> src_integerN_accepts v w = in_range true w v.
